@@ -200,6 +200,7 @@ func (r *Run) afterAuthorize(st Step, cs *ClientSpec, res *Resp, q url.Values, c
 	if code != "" {
 		cc = r.L.AddCred(&Cred{Kind: "code", Val: code, G: g, Issued: now, Life: r.W.K.DocCodeLife(), Endpoint: "authorize", Delivered: true})
 		r.secret(code, "authorization_code")
+		r.checkMinted(code, "code")
 	}
 	if at != "" {
 		ca = r.L.AddCred(&Cred{Kind: "at", Val: at, G: g, Issued: now, Endpoint: "authorize", Delivered: true,
@@ -208,6 +209,7 @@ func (r *Run) afterAuthorize(st Step, cs *ClientSpec, res *Resp, q url.Values, c
 		fmt.Sscanf(p.Get("expires_in"), "%d", &e)
 		ca.ExpiresIn = time.Duration(e) * time.Second
 		r.secret(at, "access_token")
+		r.checkMinted(at, "at")
 	}
 	if id != "" {
 		ci = r.L.AddCred(&Cred{Kind: "id", Val: id, G: g, Issued: now, Endpoint: "authorize", Delivered: true,
@@ -381,7 +383,7 @@ func (r *Run) judgeRedeem(st Step, code *Cred, cs *ClientSpec, res *Resp, sentRe
 		r.faultedRequest(g, code, res)
 		return
 	}
-	faulted := r.Fault.fired
+	faulted := r.anyFault()
 	outcome := res.ErrName
 	if tokens {
 		outcome = "tokens"
@@ -390,6 +392,7 @@ func (r *Run) judgeRedeem(st Step, code *Cred, cs *ClientSpec, res *Resp, sentRe
 	r.stat("redeem:" + outcome)
 
 	if mutated {
+		r.probe("mutated:" + st.p("mutate"))
 		if tokens {
 			r.violate("C06", "tampered-accepted", "code", "a mutated authorization code (%s) was exchanged for tokens", st.p("mutate"))
 		}
@@ -636,7 +639,7 @@ func (r *Run) judgeRefresh(st Step, rt *Cred, cs *ClientSpec, res *Resp, mutated
 		r.faultedRequest(g, rt, res)
 		return
 	}
-	faulted := r.Fault.fired
+	faulted := r.anyFault()
 	outcome := res.ErrName
 	if tokens {
 		outcome = "tokens"
@@ -644,6 +647,7 @@ func (r *Run) judgeRefresh(st Step, rt *Cred, cs *ClientSpec, res *Resp, mutated
 	r.logf("%s -> %d %s", desc, res.Status, outcome)
 	r.stat("refresh:" + outcome)
 	if mutated {
+		r.probe("mutated:" + st.p("mutate"))
 		if tokens {
 			r.violate("C06", "tampered-accepted", "rt", "a mutated refresh token (%s) was exchanged", st.p("mutate"))
 		}
@@ -885,7 +889,7 @@ func outcomeOf(res *Resp) string {
 func (r *Run) judgeBadAuth(kind, desc string, res *Resp) {
 	if res.HasTokens() {
 		r.violate("C10", "tokens-without-client-auth", kind, "%s: tokens issued although client authentication was invalid", desc)
-	} else if !r.Fault.fired && res.ErrName != "invalid_client" && res.ErrName != "invalid_request" {
+	} else if !r.anyFault() && res.ErrName != "invalid_client" && res.ErrName != "invalid_request" {
 		r.violate("C10", "wrong-error-class", kind, "%s: expected invalid_client/invalid_request, got %s", desc, res.ErrName)
 	}
 }
@@ -1025,10 +1029,11 @@ func (r *Run) opIntrospect(st Step) {
 		}
 		return
 	}
-	if r.Fault.fired {
+	if r.anyFault() {
 		return
 	}
 	if val != c.Val {
+		r.probe("mutated:" + st.p("mutate"))
 		if active {
 			r.violate("C06", "tampered-accepted", c.Kind, "introspection reports a mutated %s (%s) active", c.Kind, st.p("mutate"))
 			r.violate("C09", "tampered-active", c.Kind, "introspection reports a mutated %s (%s) active", c.Kind, st.p("mutate"))
@@ -1141,13 +1146,16 @@ func (r *Run) opRevoke(st Step) {
 	r.Tags = []string{"C08"}
 	res := r.call("revoke", func() *Resp { return r.A.Revoke(form, basic) })
 	desc := fmt.Sprintf("revoke %s(%s) hint=%s by %s auth=%s", c.Name(), c.State, st.V, cs.ID, orOK(st.A))
+	if val != c.Val {
+		desc += " mutate=" + st.p("mutate")
+	}
 	r.logf("%s -> %d %s", desc, res.Status, res.ErrName)
 	r.Shape = append(r.Shape, "revoke:"+c.Kind)
 	if res.Crashed {
 		g.Unspec = true
 		return
 	}
-	if r.Fault.fired {
+	if r.anyFault() {
 		r.faultedRequest(g, c, res)
 		g.Unspec = true
 		return
@@ -1161,6 +1169,13 @@ func (r *Run) opRevoke(st Step) {
 		}
 		r.probeAll("after an unauthenticated revocation request")
 	case val != c.Val:
+		r.probe("mutated:" + st.p("mutate"))
+		if sameSignaturePart(c.Val, val) {
+			// the revocation endpoint looks tokens up by their signature part and does not validate the random part:
+			// a forged token carrying a stored signature is not "unknown" to it. Not pinned down by C06/C08 => follow the outcome.
+			r.resync(g, "a forged token with a stored signature was revoked")
+			return
+		}
 		if res.Err != nil {
 			r.violate("C08", "unknown-token-not-success", "", "%s: unknown token must be answered with success, got %s", desc, res.ErrName)
 		}
@@ -1173,8 +1188,13 @@ func (r *Run) opRevoke(st Step) {
 		if cs.ID == g.Client && res.Err != nil {
 			r.violate("C08", "invalid-token-not-success", c.State.String(), "%s: already-invalid token must be answered with success, got %s", desc, res.ErrName)
 		}
-		if c.State == Live && cs.ID == g.Client {
-			// expired-but-present token revoked by its owner: "answered with success without changing anything"
+		forgotten := c.State == Dead && has(c.Why, "C06") // its minting secret was dropped: invalid, but the record is still stored
+		if (c.State == Live || forgotten) && cs.ID == g.Client {
+			// expired (or no longer verifiable) but still stored token revoked by its owner: "answered with success without changing anything"
+			kind := "expired-"
+			if forgotten {
+				kind = "secret-forgotten-"
+			}
 			r.L.Kill(c, Dead, "C08")
 			for _, o := range g.Creds {
 				if o == c || (o.Kind != "at" && o.Kind != "rt") || o.State != Live || o.Unspec {
@@ -1188,7 +1208,7 @@ func (r *Run) opRevoke(st Step) {
 					continue
 				}
 				if active, _ := r.introspectCred(o); !active {
-					r.violate("C08", "invalid-token-revocation-changed-state", "expired-"+c.Kind+"->"+o.Kind, "%s: revoking the already-expired %s made the still-valid %s of the same grant inactive", desc, c.Name(), o.Name())
+					r.violate("C08", "invalid-token-revocation-changed-state", kind+c.Kind+"->"+o.Kind, "%s: revoking the already-invalid %s made the still-valid %s of the same grant inactive", desc, c.Name(), o.Name())
 					r.L.Kill(o, Dead)
 				}
 			}
@@ -1215,4 +1235,10 @@ func (r *Run) opRevoke(st Step) {
 		r.resync(g, "the owner revoked "+c.Name())
 		r.probeAll("after the owner revoked " + c.Name())
 	}
+}
+
+// sameSignaturePart: does the forged token still carry the stored signature (the storage key)?
+func sameSignaturePart(orig, forged string) bool {
+	a, b := strings.Split(orig, "."), strings.Split(forged, ".")
+	return len(a) == len(b) && len(a) >= 2 && a[len(a)-1] == b[len(b)-1] && a[len(a)-1] != ""
 }
